@@ -461,7 +461,7 @@ class C05(Prop):
                 if fns != ["shared_state"]:
                     res.append(("broken", "source inventory: %s overrides ConnectionState methods %s" % (rel, fns), {}))
             if not rel.endswith(("shared_state.rs", "connection_error_creators.rs", "verif_hooks.rs")):
-                for pat in (r"\.connection_error\b", r"waker\(\)\s*\.\s*(register|wake|take)", r"\bget_conn_error\s*\(",
+                for pat in (r"\.connection_error\b", r"waker\(\)\s*\.\s*(register|wake|take)\s*\(", r"\bget_conn_error\s*\(",
                             r"\bset_conn_error(_and_wake)?\s*\("):
                     if re.search(pat, code):
                         res.append(("broken", "source inventory: %s touches the error cell / connection waker directly (%s)"
@@ -506,7 +506,7 @@ class C05(Prop):
                             fns = re.findall(r"fn\s+(\w+)", m.group(2))
                             if fns != ["shared_state"]:
                                 res.append(("broken", "sibling inventory: %s overrides ConnectionState methods %s" % (rel, fns), {}))
-                        for pat in (r"\.connection_error\b", r"waker\(\)\s*\.\s*(register|wake|take)", r"\bget_conn_error\s*\(",
+                        for pat in (r"\.connection_error\b", r"waker\(\)\s*\.\s*(register|wake|take)\s*\(", r"\bget_conn_error\s*\(",
                                     r"\bset_conn_error(_and_wake)?\s*\("):
                             n = len(re.findall(pat, code))
                             if n:
